@@ -2082,13 +2082,17 @@ func instMulUpperSS(interp *Interpreter, pc ProgramCounter, skipLength ProgramCo
 	signedA := int64(interp.Registers[rA])
 	signedB := int64(interp.Registers[rB])
 
-	hi, _ := bits.Mul64(uint64(abs(signedA)), uint64(abs(signedB)))
+	hi, lo := bits.Mul64(uint64(abs(signedA)), uint64(abs(signedB)))
 
-	if (signedA < 0) == (signedB < 0) {
-		interp.Registers[rD] = hi
-	} else {
-		interp.Registers[rD] = uint64(-int64(hi))
+	if (signedA < 0) != (signedB < 0) {
+		// negate the 128-bit product (hi, lo): the upper word is ^hi, plus the carry
+		// out of the lower word, which occurs only when lo is zero
+		hi = ^hi
+		if lo == 0 {
+			hi++
+		}
 	}
+	interp.Registers[rD] = hi
 
 	return ExitContinue, pc
 }
